@@ -152,6 +152,25 @@ Proof.
   intros Hf He Hv Hr. apply (item_num_full a spec code 2 v _ rest); try assumption; try lia; [|reflexivity].
   rewrite Hf. exact (Proofs.C12.write_two_spec v DZero Hv).
 Qed.
+(* a one-digit field (quarter, weekday numbers), whatever the padding modifier *)
+Lemma item_num1 a spec pd code p v rest :
+  Model.Format.format_numeric a spec pd = Model.Format.write_one v ->
+  numeric_entry spec = Some (1, false, code) -> 0 <= v < 10 -> utf8_valid rest = true ->
+  item_rt a (INumeric spec pd) (pad_num p 1 false v) (W_code code v) rest.
+Proof.
+  intros Hf He Hv Hr. split; [|split].
+  - unfold renders. cbn [Model.Format.format_item]. rewrite Hf. exact (Proofs.C12.write_one_spec v p Hv).
+  - cbn [reads_b]. apply (pad_num_unsigned_reads spec 1 false code p 1 v rest He); try lia; try assumption.
+    + unfold i64_max. lia.
+    + right. destruct (dec_nonneg_digits v ltac:(lia)) as (_ & Hl & _ & Hub & Hlb).
+      assert (blen (dec_nonneg v) = 1).
+      { destruct Hlb as [H1|Hlb]; [exact H1|].
+        destruct (Z_le_gt_dec (blen (dec_nonneg v)) 1) as [H|H]; [lia|exfalso].
+        assert (10 ^ 1 <= 10 ^ (blen (dec_nonneg v) - 1)) by (apply Z.pow_le_mono_r; lia).
+        change (10 ^ 1) with 10 in *. lia. }
+      destruct p; lia.
+  - rewrite utf8_valid_app_ascii by apply pad_num_ascii. exact Hr.
+Qed.
 (* a year (calendar or ISO) as the formatter prints it: 4 digits, explicit sign outside 0..=9999 *)
 Lemma item_year a spec code y rest :
   Model.Format.format_numeric a spec PadZero = Model.Format.write_year y PadZero ->
@@ -352,6 +371,19 @@ Proof.
     split; [intros v Hv; apply Some_inj in Hv; subst v; exact Ew|].
     split; [intros v Hv; apply Some_inj in Hv; subst v; exact Eo|].
     intros v Hv. apply Some_inj in Hv; subst v. exact Ed.
+Qed.
+
+(* resolution of a date from any field record below a sound view: C14's completeness theorem *)
+Lemma resolve_date_view y o d iw p F : Proofs.C08Sweeps.repr y o d -> Model.Date.d_iso_week d = Val iw ->
+  Proofs.C14.typed F -> Proofs.C14.date_sound F d -> Proofs.C14.extends p F ->
+  Proofs.C14Date.group_ok y (p_year p) (p_year_div_100 p) (p_year_mod_100 p) ->
+  Proofs.C14Date.group_ok (Model.Date.iw_year iw) (p_isoyear p) (p_isoyear_div_100 p) (p_isoyear_mod_100 p) ->
+  Proofs.C14Date.combination_present y (Model.Date.iw_year iw) p ->
+  to_naive_date p = Val (Ok d).
+Proof.
+  intros H Hiw T DS E G1 G2 C.
+  exact (Proofs.C14Iso.to_naive_date_complete y o d iw p H Hiw (typed_mono p F E T)
+           (Proofs.C14.date_sound_mono p F d E DS) G1 G2 C).
 Qed.
 
 (** * 4. From item lists to format strings *)
